@@ -12,7 +12,7 @@ from ..rtc import par
 
 LEVEL = "exploration"
 KNOWN = os.path.join(common.ROOT, "known", "C05_failing.json.gz")
-KINDS = {"c": "cat", "e": "cat", "x": "num", "z": "num", "g": "cat", "k": "cat", "h": "cat", "n": "num", "x_c": "num", "gc": "cat"}
+KINDS = {"c": "cat", "e": "cat", "x": "num", "z": "num", "g": "cat", "k": "cat", "h": "cat", "n": "num", "x_c": "num", "gc": "cat", "k_lv": "cat", "go": "cat"}
 
 # effect expressions: (text, list of effect terms as tuples, intercept present)
 EFFECTS = [
@@ -30,7 +30,11 @@ GROUPS = [("g", [("g",)]), ("g + h", [("g",), ("h",)]), ("g:h", [("g", "h")]), (
           # a numeric column used as grouping factor (forced to categoric): levels in numeric order, not in string order
           ("k", [("k",)]), ("k:h", [("k", "h")]),
           # an unordered pandas Categorical (categories listed in another order, one of them unused) inside C(): sorted observed levels
-          ("C(gc)", [("gc",)]), ("C(gc):h", [("gc", "h")])]
+          ("C(gc)", [("gc",)]), ("C(gc):h", [("gc", "h")]),
+          # a declared level order is respected: C(k, levels=lv) with lv = [100, 5, 10], and an ordered Categorical through C()
+          ("C(k, levels=lv)", [("k_lv",)]), ("C(go)", [("go",)])]
+lv = [100, 5, 10]
+DECLARED = {"k_lv": ("k", lv), "go": ("go", ["w", "u", "v"])}
 EXTRA = [  # combinations of several group terms
     "(0 + c|g) + (1|g)", "(1|g) + (0 + c|g)", "(0 + c|g) + (x|g)", "(1|g) + (0 + c|g + h)", "(1|h) + (0 + c|g + h)",
     "(0 + c|g + h) + (x|h)", "(x|g) + (0 + z|g)", "(1|g) + (0 + x|g) + (0 + c|g)", "(c|g) + (e|h)", "(0 + x|g) + (1|h)",
@@ -61,6 +65,8 @@ def frame(seed):
     d["n"] = d["c"].map({"a": 3, "b": 11, "cc": 7})      # numeric codes, crossed with g and h
     d["x_c"] = d["x"] - d["x"].mean()                    # what center(x) is on THIS frame
     d["gc"] = pd.Categorical(d["g"], categories=["w", "zz", "v", "u"])
+    d["go"] = pd.Categorical(d["g"], categories=["w", "u", "v"], ordered=True)
+    d["k_lv"] = d["k"]
     return d
 
 
@@ -77,7 +83,7 @@ def universe():
 
 def cell_indicator(d, factor):
     """Complete indicator of a grouping factor; cells of g1:g2 in lexicographic (first slowest) order."""
-    levels = [sorted(pd.unique(d[v]).tolist()) for v in factor]
+    levels = [DECLARED[v][1] if v in DECLARED else sorted(pd.unique(d[v]).tolist()) for v in factor]
     cols, names = [], []
     for cell in itertools.product(*levels):
         m = np.ones(len(d), dtype=bool)
@@ -107,7 +113,7 @@ def evaluate(formula, spec, d):
     per_factor = {}
     for name, term in dm.group.terms.items():
         fac = tuple(c.name for c in term.factor.components)
-        fac_cols = tuple({"C(k)": "k", "C(gc)": "gc"}.get(v, v) for v in fac)
+        fac_cols = tuple({"C(k)": "k", "C(gc)": "gc", "C(k, levels=lv)": "k_lv", "C(go)": "go"}.get(v, v) for v in fac)
         J, cells = cell_indicator(d, fac_cols)
         Z = np.asarray(dm.group[name], dtype=float).reshape(len(d), -1)
         G = J.shape[1]
@@ -183,7 +189,9 @@ def make_known():
 def PROOFS():
     from ..contracts import utils_c, terms_c, variable_c, matrices_c  # noqa: F401
     return [("vf.contracts.utils_c", utils_c.FUNCTIONS),
-            ("vf.contracts.matrices_c", ["formulae.matrices.GroupEffectsMatrix.__init__", "formulae.matrices.GroupEffectsMatrix.evaluate"]), ("vf.contracts.terms_c", ["formulae.terms.terms.GroupSpecificTerm.eval_new_data"]),
+            ("vf.contracts.matrices_c", ["formulae.matrices.GroupEffectsMatrix.__init__", "formulae.matrices.GroupEffectsMatrix.evaluate",
+                                         # (the blocks of the training design stay where they are when new data are evaluated)
+                                         "formulae.matrices.GroupEffectsMatrix.evaluate_new_data", "formulae.matrices.GroupEffectsMatrix.__getitem__"]), ("vf.contracts.terms_c", ["formulae.terms.terms.GroupSpecificTerm.eval_new_data"]),
             # the coding of a grouping factor: sorted duplicate-free levels, one indicator column per level
             ("vf.contracts.variable_c", ["formulae.terms.variable.Variable.eval_categoric", "formulae.terms.call.Call.eval_categoric"])]
 
